@@ -128,6 +128,7 @@ def install(cfg):
             out.attrs.update(returned=True, value=v, exc=None)
         except PyRaise as pr:
             out.attrs.update(returned=False, value=None, exc=pr.exc)
+            ctx.ghost["last_exc"] = "%s at %s" % (getattr(pr.exc.cls, "__name__", "?"), " > ".join(pr.exc.attrs.get("__site__", [])[-3:]))
         finally:
             ctx.in_call_under_proof -= 1
         out.attrs["writes"] = list(ctx.writes[w0:])
@@ -453,3 +454,16 @@ def install(cfg):
         if is_plain(b):
             return api.ascii_only(b)
         return boolval(interp, z3.InRe(interp.text_term(b), S.ASCII_RE))
+
+    @cfg.stub(api.shared_writes)
+    def shared_writes(interp, out):
+        res = []
+        for (target, what, value, pre, stack) in out.attrs.get("writes", []):
+            if not pre:
+                continue
+            if isinstance(target, (HDict, HList, HSet)) and target.label and str(target.label).startswith("arg:"):
+                continue
+            desc = "%s %s @ %s" % (type(target).__name__ if not isinstance(target, HObj) else target.cls.__name__, what, "/".join(stack[-2:]))
+            lazy = isinstance(what, tuple) and len(what) > 2 and what[2] is True
+            res.append((desc, lazy))
+        return HList(items=[d for d, lz in res if not lz])
